@@ -17,6 +17,7 @@ from pandapipes.multinet.control import run_control_multinet as rcm
 from pandapipes.multinet.timeseries.run_time_series_multinet import run_timeseries as run_timeseries_mn
 
 ID = "C20"
+CASE_WEIGHT = 12   # relative cost of one case (pool sizing)
 LEVEL = "model_checking"
 RULE = ("state = multinet (power net + hgas net [+ hydrogen net]) after each control level; cases: every controller kind "
         "(P2G, G2P gas-led on sgen / load / gen, G2P power-led, G2G) x efficiency {1, 0.7} x scaling of the coupled element "
